@@ -4,6 +4,7 @@ import (
 	"fmt"
 	"sort"
 	"strings"
+	"testing"
 
 	"github.com/ipld/go-storethehash/store/filecache"
 	"github.com/ipld/go-storethehash/verifshim/vos"
@@ -26,6 +27,8 @@ func (o fcOp) String() string {
 		return fmt.Sprintf("Open(%c)", 'a'+o.Arg)
 	case "close":
 		return fmt.Sprintf("Close(lent[%d])", o.Arg)
+	case "read":
+		return "ReadAt(lent[0])"
 	case "remove":
 		return fmt.Sprintf("Remove(%c)", 'a'+o.Arg)
 	case "clear":
@@ -282,4 +285,123 @@ func runC14(c *Collector) {
 		frontier = next
 	}
 	c.res.Bound = fmt.Sprintf("%d file names, capacities %v, <= %d handles lent; fixpoint reached=%v; %d canonical states; longest shortest-history %d ops", names, caps, fcMaxLent, c.res.Exhaustive, len(seen), maxDepth)
+}
+
+// ---- C14, concurrent part (engine A): two threads on one FileCache ----
+
+type fcProg []fcOp // ops of one thread; "close" closes the thread's oldest open handle; "read" reads it
+
+func execFileCache(t *testing.T, sc *ConcScenario, choose chooser) *execResult {
+	res := &execResult{}
+	w := &fcWorld{fs: vos.NewMemFS(), names: []string{"/f/a", "/f/b", "/f/c"}}
+	w.fs.MkdirRaw("/f")
+	for _, n := range w.names {
+		w.fs.WriteFileRaw(n, []byte("content of "+n))
+	}
+	vos.SetBackend(w.fs)
+	capacity := sc.Extra["cap"].(int)
+	w.fc = filecache.New(capacity)
+	progs := sc.Extra["progs"].([]fcProg)
+	s := newSched(0, 0)
+	held := make([][]*vos.File, len(progs))
+	var firstViol *Violation
+	for ti, prog := range progs {
+		ti, prog := ti, prog
+		s.spawn(fmt.Sprintf("T%d", ti+1), func() {
+			defer func() {
+				if r := recover(); r != nil && firstViol == nil {
+					firstViol = violO("fc", "panic", "T%d: panic: %v", ti+1, r)
+				}
+			}()
+			for _, op := range prog {
+				switch op.Kind {
+				case "open":
+					f, err := w.fc.Open(w.names[op.Arg])
+					if err != nil {
+						if firstViol == nil {
+							firstViol = violO("fc", "call-error", "T%d Open(%s): %v", ti+1, w.names[op.Arg], err)
+						}
+						return
+					}
+					held[ti] = append(held[ti], f)
+				case "read":
+					if len(held[ti]) > 0 {
+						buf := make([]byte, 4)
+						if _, err := held[ti][0].ReadAt(buf, 0); err != nil && firstViol == nil {
+							firstViol = violO("fc", "handle:closed-while-lent", "T%d: handle %d (%s) obtained from the cache and not yet released is not readable: %v", ti+1, held[ti][0].ID(), held[ti][0].Name(), err)
+						}
+					}
+				case "close":
+					if len(held[ti]) > 0 {
+						f := held[ti][0]
+						held[ti] = held[ti][1:]
+						if err := w.fc.Close(f); err != nil && firstViol == nil {
+							firstViol = violO("fc", "call-error", "T%d Close(%s): %v", ti+1, f.Name(), err)
+						}
+					}
+				case "remove":
+					w.fc.Remove(w.names[op.Arg])
+				case "clear":
+					w.fc.Clear()
+				case "resize":
+					w.fc.SetCacheSize(op.Arg)
+				}
+			}
+		})
+	}
+	s.run(choose)
+	res.trace = schedTrace{decisions: append([]decision{}, s.trace.decisions...), steps: append([]string{}, s.trace.steps...)}
+	res.aborted = s.aborted
+	res.conflicts = s.conflicts
+	if s.aborted != "" {
+		if !strings.HasPrefix(s.aborted, "replay-divergence") {
+			res.viol = violO("fc", "deadlock", "%s: %s", s.aborted, s.describe())
+		}
+		abortProcessAfter(res)
+		return res
+	}
+	s.releaseAll()
+	w.lent = nil
+	for _, hs := range held {
+		w.lent = append(w.lent, hs...)
+	}
+	res.viol = firstViol
+	if res.viol == nil {
+		res.viol = w.invariants()
+	}
+	res.outcome = w.canon()
+	return res
+}
+
+func c14ConcScenarios(tier string) []*ConcScenario {
+	O := func(n int) fcOp { return fcOp{"open", n} }
+	Rd := fcOp{"read", 0}
+	Cl := fcOp{"close", 0}
+	pairs := [][]fcProg{
+		{{O(0), Rd, Cl}, {O(0), Rd, Cl}},
+		{{O(0), Rd, Cl}, {O(1), Rd, Cl, O(2), Cl}},
+		{{O(0), Rd, Cl}, {fcOp{"resize", 0}, fcOp{"resize", 2}}},
+		{{O(0), Rd, Cl}, {fcOp{"remove", 0}, O(0), Cl}},
+		{{O(0), O(1), Rd, Cl, Cl}, {fcOp{"clear", 0}, fcOp{"resize", 1}}},
+		{{O(0), Rd, Cl}, {O(0), fcOp{"resize", 1}, Rd, Cl}},
+	}
+	bound := 2
+	caps := []int{0, 1, 2}
+	if tier != "quick" {
+		bound = 3
+	}
+	var scs []*ConcScenario
+	for _, cp := range caps {
+		for pi, pr := range pairs {
+			sc := &ConcScenario{Prop: "C14", Bound: bound, Exec: execFileCache, Extra: map[string]any{"cap": cp, "progs": pr}}
+			sc.Name = fmt.Sprintf("c14/cap=%d/pair=%d", cp, pi)
+			var parts []string
+			for ti, p := range pr {
+				parts = append(parts, fmt.Sprintf("T%d[%s]", ti+1, fcOpsString(p)))
+			}
+			sc.Desc = fmt.Sprintf("New(%d); %s", cp, strings.Join(parts, " || "))
+			scs = append(scs, sc)
+		}
+	}
+	return scs
 }
